@@ -15,17 +15,17 @@ import (
 func init() { register("C09", c09Scenarios) }
 
 type c09P struct {
-	Push       bool
-	N          int    // outside Callback threads cb0..cbN-1, each with its own context
-	Cancel     bool   // a thread cancels the context of cb0 at an arbitrary moment
-	Script     string // peer's answer: inorder, reverse, batch, dup, unknown, error, late, none
-	PeerCall   bool   // the peer has its own gated call with id 1 in flight (callback ids also start at 1)
-	NoteWaits  bool   // a notification handler awaits a callback while dispatch is parked behind it
-	Stop       bool   // Stop racing with the callbacks
-	Notify     bool   // an outside Notify
-	AfterStop  bool   // Notify/Callback issued after WaitStatus returned
-	HandlerCB  bool   // a call handler issues a callback and returns its result
-	BgCtx      bool   // the outside callbacks use context.Background() (a context that can never end)
+	Push      bool
+	N         int    // outside Callback threads cb0..cbN-1, each with its own context
+	Cancel    bool   // a thread cancels the context of cb0 at an arbitrary moment
+	Script    string // peer's answer: inorder, reverse, batch, dup, unknown, error, late, none
+	PeerCall  bool   // the peer has its own gated call with id 1 in flight (callback ids also start at 1)
+	NoteWaits bool   // a notification handler awaits a callback while dispatch is parked behind it
+	Stop      bool   // Stop racing with the callbacks
+	Notify    bool   // an outside Notify
+	AfterStop bool   // Notify/Callback issued after WaitStatus returned
+	HandlerCB bool   // a call handler issues a callback and returns its result
+	BgCtx     bool   // the outside callbacks use context.Background() (a context that can never end)
 }
 
 func (p c09P) name() string {
